@@ -38,6 +38,10 @@ def stress_docs(rnd, n):
              "# Same\n\n# Same\n\n[s](#same-1) [t](#same)",
              "```{verif-titles}\n---\n\nsecond\n```", "```{verif-titles}\nfirst\n\n***\n\n## Heading inside\n\ntext\n\n---\n```",
              "> ```{verif-titles}\n> a\n>\n> ***\n> ```", "- ```{verif-titles}\n  # t\n\n  ---\n  ```",
+             # a footnote whose label is also the name of an explicit target / a named directive
+             "(fnt)=\n\npara\n\n[^fnt]: clash\n\nref [^fnt]", "```{tip}\n:name: fn2\nx\n```\n\n[^fn2]: clash two\n\nr [^fn2]",
+             # several raw nodes (a hard break makes two)
+             "line a\\\nline b and <b>inline</b>\n\n<div>block</div>", "> ---\n\n~~s~~",
              '<div class="admonition">\n<![foo]>\n</div>', '<img src="a.png" alt="x">', '<div class="admonition note">\n<p class="title">T</p>\nbody\n</div>']
     for t in range(n):
         k = rnd.randint(2, 8)
